@@ -224,6 +224,69 @@ def history_ops(rng, prefix, iid, cursor, keys, nops, stats, seps=()):
     return lines
 
 
+def systematic_targets(keys, seps=()):
+    """every stored key, its immediate successor string, a predecessor, plus the separators and the two ends"""
+    T = {b"", b"\xff\xff\xff"}
+    for k in list(keys) + list(seps):
+        T.add(k); T.add(k + b"\x00")
+        if k:
+            T.add(k[:-1]); T.add(k[:-1] + bytes([k[-1] - 1]) + b"\xff" if k[-1] else k[:-1])
+            T.add(k[:-1] + bytes([(k[-1] + 1) % 256]) if k[-1] != 255 else k + b"\x01")
+    return sorted(T)
+
+
+def systematic_histories(rng, prefix, rid, first_iid, entries, kinds, stats, seps=(), budget=400, close_op=True):
+    """small-scope exhaustive part: for each iterator kind, EVERY (state reached by a prelude, seek target) pair on this table:
+    preludes = nothing | j x next (j = 1 .. n+1, i.e. every position incl. exhausted) | seek(t1) | seek(t1), next;
+    then seek(t2), next, next.  One fresh iterator per history (closed afterwards).  `budget` caps the number of histories
+    (a random subset is taken when the full product is larger)."""
+    keys = [k for k, _ in entries]
+    T = systematic_targets(keys, seps)
+    n = len(keys)
+    hist = []
+    for kind in kinds:
+        start = b"" if kind[0] == "iter" else kind[1]
+        Tk = [t for t in T if t >= start] or [start]
+        pre = [[]] + [["next"] * j for j in range(1, n + 2)]
+        for t1 in (Tk if len(Tk) <= 6 else [Tk[i] for i in sorted(set(rng.below(len(Tk)) for _ in range(6)))]):
+            pre.append([("seek", t1)]); pre.append([("seek", t1), "next"])
+        for p in pre:
+            for t2 in Tk:
+                hist.append((kind, p + [("seek", t2), "next", "next"]))
+    if len(hist) > budget:
+        idx = sorted(set(rng.below(len(hist)) for _ in range(budget * 2)))[:budget]
+        hist = [hist[i] for i in idx]
+    lines = []; iid = first_iid
+    for kind, ops in hist:
+        lines.append("%s.it %d %d %s" % (prefix, rid, iid, kind_args(kind)))
+        for o in ops:
+            lines.append("%s.next %d" % (prefix, iid) if o == "next" else "%s.seek %d %s" % (prefix, iid, hx(o[1])))
+        if close_op:
+            lines.append("%s.close %d" % (prefix, iid))
+        iid += 1
+        stats.bump("systematic_history")
+    return lines
+
+
+def gen_table_systematic(rng, stats):
+    """a small table (2..7 keys spread over 1..n blocks) with the exhaustive (prelude, seek target) histories on it"""
+    n = rng.pick([2, 3, 4, 5, 6, 7])
+    keys = gen_keys(rng, n, stats, long_ok=False)
+    comp = rng.pick([0, 0, 0, 1, 2, 5])
+    bs = rng.pick([16, 20, 24, 32, 48, 64, 200]); ri = rng.pick([1, 1, 2, 2, 3, 4])
+    lines = ["reset", "w.new 1 comp=%d level=d bs=%d ri=%d pre=- minbs=16" % (comp, bs, ri)]
+    ents = []
+    for k in keys:
+        v = bytes(rng.below(256) for _ in range(rng.pick([0, 1, 2, 5, 9])))
+        ents.append((k, v)); lines.append("w.add 1 %s %s" % (hx(k), hx(v)))
+    lines += ["@f w.fin 1", "r.openw 2 1 verify=%d madv=0" % rng.below(2)]
+    kinds = [("iter",)]
+    k0 = gen_kind(rng, keys, which=1 + rng.below(3))
+    kinds.append(k0)
+    stats.bump("systematic_table")
+    return lines + systematic_histories(rng, "r", 2, 10, ents, kinds, stats, budget=350)
+
+
 # ---------------------------------------------------------------------------------------------
 # table family: writer + reader + iterators   (C01 C02 C03 C08 C09 C10)
 
@@ -639,6 +702,10 @@ def gen_merger_case(rng, stats, focus="C04"):
             cur = Cursor([(k, v) for k, v, _ in merged_content(mode, [es for _, es in srcs])], kind)
             lines += history_ops(rng, "m", iid, cur, allkeys, rng.pick([4, 8, 12, 16]), stats)
             iid += 1
+    content = [(k, v) for k, v, _ in merged_content(mode, [es for _, es in srcs])]
+    if mode != "fail" and 2 <= len(content) <= 9 and (focus == "C05" and rng.chance(1, 3) or rng.chance(1, 10)):
+        # small merged view: every (prelude, seek target) pair on it
+        lines += systematic_histories(rng, "m", 1, iid, content, [("iter",), gen_kind(rng, allkeys, which=1 + rng.below(3))], stats, budget=200)
     return lines
 
 
@@ -1183,6 +1250,9 @@ def gen_enc_script(rng, stats, spec, ents, comp, thr, ctab_lines):
         cur = Cursor([(k, b"") for k in keys], kind)
         lines += history_ops(rng, "r", iid, cur, keys, rng.pick([4, 8, 12]), stats)
         iid += 1
+    if len(keys) <= 8 and rng.chance(1, 2):
+        # small foreign-encoded table: every (prelude, seek target) pair, separators included among the targets
+        lines += systematic_histories(rng, "r", 2, iid, ents, [("iter",), gen_kind(rng, keys, which=1 + rng.below(3))], stats, budget=250)
     return lines
 
 
